@@ -281,6 +281,8 @@ def _worker_init():
     import warnings
     warnings.simplefilter("ignore")
     import mc  # noqa: F401  (pins the tree, thread counts)
+    from . import state
+    state.snapshot()    # the library's global state while it is pristine
 
 
 _POOL = None
